@@ -160,6 +160,7 @@ class Acc(object):
         self.counters = {}
         self.states = 0
         self.transitions = 0
+        self.bag = {}              # name -> list of values a check wants to compare ACROSS tasks / worker processes
 
     def case(self, key, nontrivial=True, outcome=None):
         self.evaluations += 1
@@ -204,6 +205,8 @@ class Acc(object):
             for d in det:
                 if len(ent[1]) < MAX_VIOL_PER_SIG:
                     ent[1].append(d)
+        for k, v in getattr(other, 'bag', {}).items():
+            self.bag.setdefault(k, []).extend(v)
         for s in other.samples[:3]:
             if len(self.samples) < 600:
                 self.samples.append(s)
@@ -213,8 +216,23 @@ class Acc(object):
 # ---------------------------------------------------------------------------------------------------
 # static fork pool
 
+_BEACON = {'conn': None}
+
+
+def note_current(info):
+    """a task tells the parent which case it is about to run (used before calls that might never return): if the
+    worker has to be killed, the report names the case"""
+    c = _BEACON['conn']
+    if c is not None:
+        try:
+            c.send(('at', info))
+        except Exception:
+            pass
+
+
 def _worker(fn, tasks, idx, n, conn):
     import signal
+    _BEACON['conn'] = conn
     try:
         quiet_library()
         signal.signal(signal.SIGPROF, _on_prof)
@@ -222,6 +240,7 @@ def _worker(fn, tasks, idx, n, conn):
         for i in range(idx, len(tasks), n):
             # CPU-time watchdog around every task: a library loop that never ends becomes a verdict, not a stuck check
             signal.setitimer(signal.ITIMER_PROF, task_cpu_limit(_TIER['tier']), 5.0)   # re-fires if swallowed
+            conn.send(('begin', i))      # the parent keeps a wall clock per task (see pmap)
             try:
                 out.append((i, call_on_axis(fn, tasks[i])))
             finally:
@@ -254,19 +273,47 @@ def pmap(fn, tasks, nworkers=None):
     results = [None] * len(tasks)
     err = None
     hang = None
-    for p, conn in procs:
-        try:
-            kind, payload = conn.recv()
-        except EOFError:
-            kind, payload = 'err', 'worker died without a result (pid %s)' % p.pid
-        if kind == 'ok':
-            for i, r in payload:
-                results[i] = r
-        elif kind == 'timeout':
-            hang = payload
-        else:
-            err = payload
-        p.join()
+    # The CPU-time signal cannot interrupt a single call that never returns to the interpreter (one C-level operation
+    # that runs for hours): the parent therefore also keeps a wall clock per task and kills a worker whose task
+    # exceeds it - the task is then reported as non-terminating.
+    from multiprocessing.connection import wait as _wait
+    wall_limit = float(os.environ.get('VERIF_TASK_WALL_LIMIT', '') or 4 * task_cpu_limit(_TIER['tier']))
+    live = {conn: p for p, conn in procs}
+    started = {}
+    while live:
+        for conn in _wait(list(live), timeout=2.0):
+            p = live[conn]
+            try:
+                kind, payload = conn.recv()
+            except EOFError:
+                kind, payload = 'err', 'worker died without a result (pid %s)' % p.pid
+            if kind == 'begin':
+                started[conn] = (payload, time.time(), None)
+                continue
+            if kind == 'at':
+                if conn in started:
+                    started[conn] = (started[conn][0], started[conn][1], payload)
+                continue
+            if kind == 'ok':
+                for i, r in payload:
+                    results[i] = r
+            elif kind == 'timeout':
+                hang = payload
+            else:
+                err = payload
+            p.join()
+            del live[conn]
+            started.pop(conn, None)
+        now = time.time()
+        for conn, (i, t0, at) in list(started.items()):
+            if conn in live and now - t0 > wall_limit:
+                p = live.pop(conn)
+                started.pop(conn, None)
+                p.kill()
+                p.join()
+                hang = 'task %d of %d did not come back within %.0f s (one call that never returns to the interpreter ' \
+                       '- the worker was killed)%s' % (i, len(tasks), wall_limit,
+                                                         '; last case announced: %s' % json.dumps(at)[:600] if at else '')
     if err:
         raise Broken('worker failed:\n' + err)
     if hang:
